@@ -11,8 +11,15 @@ rows = []
 for f in sorted(glob.glob(f"{ROOT}/evidence/C*.json")):
     e = json.load(open(f)); c = e["coverage"]; pid = e["property_id"]
     t = th.get(pid, {})
+    # a thorough run of the final tree, if its evidence copy exists, replaces the hand-recorded note
+    tf = f"{ROOT}/tools/thorough_evidence/{pid}.json"
+    if os.path.exists(tf):
+        te = json.load(open(tf))
+        if te.get("tier") == "thorough":
+            tc = te["coverage"]
+            t = {"summary": f"{tc.get('evaluations',0):,} evals ({tc.get('distinct_nontrivial',0):,} distinct non-trivial), {tc.get('states',0):,} states, {tc.get('transitions',0):,} transitions, {te['wall_s']:.0f} s, exhaustive={str(tc.get('exhaustive')).lower()}, violations={te.get('violations',0)}; bound: {tc.get('bound_completed','')[:160]}"}
     rows.append(f"| {pid} | {e['level']} | {e['tier']}: {c.get('evaluations',0):,} evals, {c.get('states',0):,} states, {c.get('transitions',0):,} transitions, {e['wall_s']:.1f} s | {t.get('summary','not recorded')} | {c.get('bound_completed','')[:220]} | {'; '.join(c.get('caps_hit', []))[:160] or '—'} |")
-block = "\n".join(["<!-- EVIDENCE-TABLE-BEGIN -->", "", "| id | level | last committed evidence run | thorough tier (measured once, idle 16 cores unless noted) | bound completed | caps |", "|---|---|---|---|---|---|"] + rows + ["", "<!-- EVIDENCE-TABLE-END -->"])
+block = "\n".join(["<!-- EVIDENCE-TABLE-BEGIN -->", "", "| id | level | last committed evidence run | thorough tier on the final tree (copy of that run's evidence in tools/thorough_evidence/) | bound completed | caps |", "|---|---|---|---|---|---|"] + rows + ["", "<!-- EVIDENCE-TABLE-END -->"])
 p = f"{ROOT}/DESIGN.md"; s = open(p).read()
 if "<!-- EVIDENCE-TABLE-BEGIN -->" in s:
     s = re.sub(r"<!-- EVIDENCE-TABLE-BEGIN -->.*<!-- EVIDENCE-TABLE-END -->", lambda _: block, s, flags=re.S)
